@@ -65,6 +65,9 @@ func init() {
 	control(Control{ID: "c03-stationary-loop", Prop: "C03", File: "idr/navigator.go",
 		Old: "\tfor ; n != nil && n.Type == AttributeNode; n = n.NextSibling {", New: "\tfor ; n != nil && n.Type == AttributeNode; n = n {",
 		Rule: "K11", Substr: "MoveToChild", Why: "loop variable never advances"})
+	control(Control{ID: "c05-matcher-reads-io-state", Prop: "C05", File: "extensions/omniv21/fileformat/flatfile/hierarchyReader.go",
+		Old: "\tcur = r.shrinkStack()\n\tif cur.curChild < len(cur.recDecl.ChildDecls())-1 {", New: "\tcur = r.shrinkStack()\n\tif r.target == nil && r.r != nil && cur.curChild < len(cur.recDecl.ChildDecls())-1 {",
+		Rule: "R05f", Substr: "recNext", Why: "sibling advance depends on reader state outside the declaration stack"})
 	control(Control{ID: "c15-vm-dirty-after-error", Prop: "C15", File: "extensions/omniv21/customfuncs/javascript.go",
 		Old: "\t\t\tfor arg := range args {\n\t\t\t\t_ = vm.GlobalObject().Delete(arg)\n\t\t\t}", New: "\t\t\t_ = vm.GlobalObject().Delete(argNameNode)",
 		Rule: "R15g", Substr: "execProgram", Why: "script arguments of an earlier transform stay visible in the pooled VM"})
